@@ -42,6 +42,34 @@ EDGE_STRINGS = [
     "K",  # kelvin sign (case-folds to k)
     "ſ",
     "ß",
+    # two-character sequences a "normalising" serializer could fold
+    "\r\n",
+    "a\r\nb",
+    "\n\r",
+    "\r",
+    "\n",
+    "\t",
+    "line1\nline2\r\n",
+    "\\r\\n",  # the four characters  backslash r backslash n
+    "\\n",
+    "\\\\",
+    "\\\"",
+    "\\u000a",
+    "  two  spaces  ",
+    " leading",
+    "trailing ",
+    "tab\there",
+    "e\u0301",  # e + combining acute (NFD)
+    "\u00e9",  # precomposed (NFC)
+    "\u2028\u2029",
+    "\x85",
+    "\x0b\x0c",
+    "a\x00b",
+    ": ",
+    ", ",
+    ",\n",
+    "{}",
+    "[]",
 ]
 
 EDGE_FLOATS = [
